@@ -9,6 +9,9 @@
 (*      Valid(Mutate(base, m))  <=>  Verdict(m) = "accept"                                           *)
 (* for every base variant and mutation, and emits the pairs; the harness writes each as a real       *)
 (* spreadsheet and ValidateTrace.tla judges what the library did with it.                             *)
+(* A program book is a third file layered on a valid framework and databook: programs, the           *)
+(* populations / compartments they target, effect rows (parameter, population, programs with an      *)
+(* outcome, programs named in interaction outcomes); its rules are ValidPB.                           *)
 (***************************************************************************************************)
 EXTENDS Integers, Sequences, FiniteSets, TLC, Json
 CONSTANTS Bases, Mutations
@@ -41,7 +44,15 @@ CallsListed(f) == \A p \in f.pars : p.calls \subseteq Listed
 CascadeNested(f) == \A k \in 1..(Len(f.cascade) - 1) : f.cascade[k+1] \subseteq f.cascade[k]
 Complete(f) == RequiredSheets \subseteq f.sheets /\ RequiredColumns \subseteq f.columns
 DataComplete(f) == f.datadefects = {}           \* the databook holds every required table, value, population and the framework's units
-Valid(f) == DataComplete(f) /\ CodeNamesUnique(f) /\ DisplayNamesUnique(f) /\ NoReserved(f) /\ RefsDefined(f) /\ LinkUnits(f) /\ NoCycles(f) /\ CallsListed(f) /\ CascadeNested(f) /\ Complete(f)
+\* ---- program book rules ----
+PBRefs(f) == /\ f.pb.tpops \subseteq f.datapops /\ f.pb.tcomps \subseteq {c.name : c \in f.comps}
+             /\ f.pb.epars \subseteq f.targetable /\ f.pb.epops \subseteq f.datapops
+             /\ f.pb.eprogs \subseteq f.pb.progs /\ f.pb.iprogs \subseteq f.pb.eprogs
+PBUnique(f) == f.pb.dupprogs = 0 /\ "all" \notin f.pb.progs
+PBTargets(f) == f.pb.untargeted = {}            \* every program targets at least one population and one compartment
+PBComplete(f) == f.pb.defects = {}              \* unit cost and spending for every program, a baseline wherever outcomes are given, one currency, a known coverage interaction, all sheets
+ValidPB(f) == PBRefs(f) /\ PBUnique(f) /\ PBTargets(f) /\ PBComplete(f)
+Valid(f) == ValidPB(f) /\ DataComplete(f) /\ CodeNamesUnique(f) /\ DisplayNamesUnique(f) /\ NoReserved(f) /\ RefsDefined(f) /\ LinkUnits(f) /\ NoCycles(f) /\ CallsListed(f) /\ CascadeNested(f) /\ Complete(f)
 
 \* ---- mutations (each keeps everything else of the file) ----
 Par(n, u, d, c) == [name |-> n, units |-> u, deps |-> d, calls |-> c]
@@ -73,8 +84,21 @@ Mutate(f, m) ==
     [] m = "delete_code_name_column" -> [f EXCEPT !.columns = @ \ {"compartments.code name"}]
     [] m = "blank_optional_column" -> f                       \* an optional column that is present but empty changes nothing
     [] m = "delete_optional_sheet" -> [f EXCEPT !.sheets = @ \ {"databook pages"}]
-    [] m \in {"databook_delete_table", "databook_unit_mismatch", "databook_blank_required_values", "databook_unknown_population", "databook_delete_state_sheet"} -> [f EXCEPT !.datadefects = @ \cup {m}]
-Verdict(m) == IF m \in {"none", "add_output_parameter", "blank_optional_column", "delete_optional_sheet", "delete_transitions_sheet", "characteristic_on_unlisted_page", "capitalised_units"} THEN "accept" ELSE "reject"
+    [] m \in {"databook_delete_table", "databook_unit_mismatch", "databook_unit_mismatch_compartment", "databook_blank_required_values", "databook_unknown_population", "databook_delete_state_sheet"} -> [f EXCEPT !.datadefects = @ \cup {m}]
+    [] m \in {"progbook_none", "progbook_lowercase_flags", "progbook_zero_outcome"} -> f          \* spelling of Y/N flags, an outcome of exactly 0: no rule broken
+    [] m = "progbook_unknown_population" -> [f EXCEPT !.pb.tpops = @ \cup {"nobody"}]
+    [] m = "progbook_unknown_compartment" -> [f EXCEPT !.pb.tcomps = @ \cup {"ghost"}]
+    [] m = "progbook_duplicate_program" -> [f EXCEPT !.pb.dupprogs = 1]
+    [] m = "progbook_reserved_program_name" -> [f EXCEPT !.pb.progs = @ \cup {"all"}]
+    [] m = "progbook_untargetable_parameter" -> [f EXCEPT !.pb.epars = @ \cup {"wane"}]
+    [] m = "progbook_unknown_parameter" -> [f EXCEPT !.pb.epars = @ \cup {"ghostpar"}]
+    [] m = "progbook_unknown_effect_population" -> [f EXCEPT !.pb.epops = @ \cup {"nobody"}]
+    [] m = "progbook_unknown_program_in_effects" -> [f EXCEPT !.pb.eprogs = @ \cup {"P9"}]
+    [] m = "progbook_interaction_unknown_program" -> [f EXCEPT !.pb.iprogs = @ \cup {"P9"}]
+    [] m \in {"progbook_no_target_compartment", "progbook_no_target_population"} -> [f EXCEPT !.pb.untargeted = {"P1"}]
+    [] m \in {"progbook_missing_unit_cost", "progbook_missing_spending", "progbook_outcome_without_baseline", "progbook_bad_coverage_interaction", "progbook_mixed_currencies",
+              "progbook_delete_effects_sheet", "progbook_delete_spending_sheet", "progbook_interaction_program_without_outcome"} -> [f EXCEPT !.pb.defects = @ \cup {m}]
+Verdict(m) == IF m \in {"progbook_none", "progbook_lowercase_flags", "progbook_zero_outcome", "none", "add_output_parameter", "blank_optional_column", "delete_optional_sheet", "delete_transitions_sheet", "characteristic_on_unlisted_page", "capitalised_units"} THEN "accept" ELSE "reject"
 
 Init == bi \in 1..Len(Bases) /\ mut = "" /\ obs = ""
 Pick == /\ mut = ""
